@@ -10,7 +10,7 @@ CHECKS = {
     "C01": (
         "bounded exhaustive operation-history exploration of the real BDD builder against a truth-table reference model (saturation sweep over all 256 functions of 3 variables x all orders x cache kinds; all short histories over 2 variables)",
         "Every operation of the alphabet is issued on the real RobddBuilder over all argument combinations of the stated finite pools, in every variable order and for cache-everything and lossy caches of several capacities with tiny and default unique tables; each result and, periodically, every earlier result is compared with the truth-table definition. Exhaustive within the bounds, no sampling.",
-        "Trusted: truth-table algebra and the diagram reader of the harness; n <= 3 for all-pairs sweeps (n = 2 for all-histories), pools for ite in quick; address-dependent table layout is whatever the allocator gives (all layouts only in C02a/C16a).",
+        "Trusted: truth-table algebra and the diagram reader of the harness; n <= 3 for all-pairs sweeps over all functions (n = 2 for all-histories; n = 4, 5 over an operand pool of cubes/clauses/2-variable functions; n = 3 again in wide managers with labels up to 133), ite over pools plus every literal guard x every ordered pair with chained condition/exists on the result; address-dependent table layout is whatever the allocator gives (all layouts only in C02a/C16a).",
         "DESIGN.md §3 C01",
     ),
     "C02": (
@@ -22,19 +22,19 @@ CHECKS = {
     "C06": (
         "exhaustive input-space enumeration (all small CNFs x all decision orders x both node stores) on the real top-down compiler, truth-table oracle; fresh and long-lived builders",
         "Every CNF of the bounded family is compiled top-down under every permutation of its variables with both stores; false-iff-unsat, model set, one-decision-per-path and all conditionings of the result and of its negation are compared with brute force.",
-        "Trusted: truth-table oracle; CNFs with <= 3 clauses over <= 3 variables (<= 2 clauses, width <= 3 over 4 in thorough); orders over exactly the CNF's variables (builder precondition).",
+        "Trusted: truth-table oracle; CNFs with <= 3 clauses over <= 3 variables (<= 2 clauses, width <= 3 over 4 in thorough), unit + 4 clauses, binary clauses over 4 variables, one width-4 clause + two binary clauses over 5 variables (all 120 orders), long clauses / long unit lists, sparse labels up to 128 (three orders); orders over exactly the CNF's variables (builder precondition).",
         "DESIGN.md §3 C06",
     ),
     "C08": (
         "exhaustive input-space enumeration: every Boolean function x every order x every smoothing depth on the real builder, path walk + brute-force weighted sum",
         "All functions of <= 3 (thorough 4) variables, with and without an unused builder variable, under every variable order and every smoothing depth: function preserved, every path tests the smoothed levels exactly once in order, counts under integer weights equal the brute-force sum.",
-        "Trusted: truth tables, path walker, integer weights (exact in f64).",
+        "Trusted: truth tables, path walker, integer weights incl. zero components (exact in f64); managers built at full width and managers grown from m < #vars variables by new_var.",
         "DESIGN.md §3 C08",
     ),
     "C09": (
         "explicit-state model checking of the real SATSolver: per CNF, BFS to closure over all decide/pop histories (state = watch lists + state stack), brute-force entailment oracle",
         "For every CNF of the bounded family the complete set of solver states reachable by any decide/pop interleaving with at most n+1 open decisions is visited; on every transition soundness of assignments and of UNSAT, the fixpoint condition, exact undo by pop, the satisfied flag and hash/residual injectivity are checked against brute force over all models.",
-        "Trusted: brute-force entailment over 2^n models; hooks verif_clone/verif_snapshot for frontier copies and the canonical key (the statement itself is observed through the public API only); CNFs <= 3 clauses over 3 variables (+ <= 2 clauses over 4 in thorough).",
+        "Trusted: brute-force entailment over 2^n models; hooks verif_clone/verif_snapshot for frontier copies and the canonical key (the statement itself is observed through the public API only); CNFs <= 3 clauses over 3 variables (+ <= 2 clauses over 4 in thorough) and one width-4 clause + two binary clauses over 5 variables with <= 3 (4) open decisions.",
         "DESIGN.md §3 C09",
     ),
     "C13": (
@@ -46,7 +46,7 @@ CHECKS = {
     "C14": (
         "exhaustive input-space enumeration: all small CNFs x all elimination orders; all vtrees (every shape and labelling) x all node pairs, against definitions recomputed from the input",
         "Orders produced by the library are checked to be mutually inverse permutations; dtrees against leaves/vars/cutset definitions; derived vtrees against the CNF's variable set; the vtree manager's indices, lca, prime relation, subtree lookup and variable count against the tree shape for every node pair.",
-        "Trusted: the harness's own tree shape computations; CNFs <= 3 clauses over 3 variables (+ slices with 4 clauses / 4 variables in thorough); vtrees <= 4 leaves (5, and 6 with two labellings, in thorough).",
+        "Trusted: the harness's own tree shape computations; CNFs <= 3 clauses over 3 variables (+ slices with 4 clauses / 4 variables in thorough), multisets of 5-7 binary clauses, stars/components/duplicates with 5-7 parts, sparse labels up to 128; vtrees <= 4 leaves (5, and 6 with two labellings, in thorough).",
         "DESIGN.md §3 C14",
     ),
     "C15": (
@@ -58,7 +58,7 @@ CHECKS = {
     "C03": (
         "bounded exhaustive operation-history exploration of the real SDD builder against a truth-table reference model (all functions of 3 variables x all 12 vtrees x compression on/off in long-lived builders; stride slices over 4 variables x 120 vtrees)",
         "Every operation of the alphabet is issued on the real CompressionSddBuilder over all argument combinations of the stated pools for every vtree shape and labelling with compression on and off; each result and periodically every earlier result is compared with the truth-table definition.",
-        "Trusted: truth tables read through BinarySDD::{label,low,high} and SddOr::iter; all pairs only for n <= 3; n = 4 by stride.",
+        "Trusted: truth tables read through BinarySDD::{label,low,high} and SddOr::iter; all pairs over all functions only for n <= 3; n = 4: all functions in residue-class builders on 6 vtrees (all 120 in thorough) + operand pool on all 120 vtrees; n = 5: operand pool on 56 vtrees (quick, strided pairs) / 45 vtrees (thorough, all pairs); n = 3 again with labels up to 133.",
         "DESIGN.md §3 C03",
     ),
     "C04": (
@@ -70,7 +70,7 @@ CHECKS = {
     "C05": (
         "exhaustive input-space enumeration (clause sequences, expression trees, plan trees) x all orders x all vtrees x all partial models on the real bottom-up compilers, direct-evaluation oracle",
         "Every CNF (as a sequence of clause types incl. empty/unit/tautological/duplicate clauses, repeated literals, >20 clauses), every expression tree up to a size bound and every dtree plan / small plan tree is compiled with the BDD builder under every order and the SDD builder under every vtree (incl. dtree-derived); models are compared with direct evaluation and compile-under-assignment with compile-then-condition for all 3^n partial models.",
-        "Trusted: clause/expression evaluators of the harness; bounds <= 3 clauses over 3 variables (+ slices), expressions <= 2 (3) connectives.",
+        "Trusted: clause/expression evaluators of the harness; bounds <= 3 clauses over 3 variables (+ slices), clauses of up to 14 literals and lists of up to 14 unit clauses, the <= 2-clause CNFs again under sparse labels up to 133, expressions <= 2 (3) connectives.",
         "DESIGN.md §3 C05",
     ),
     "C07": (
@@ -106,13 +106,13 @@ CHECKS = {
     "C17": (
         "exhaustive input-space enumeration of CNF texts (4 layouts), s-expressions and diagrams/vtrees; independent writer, reader and evaluators",
         "Every text is parsed by the real parsers and its models compared with the harness's evaluation under the documented numbering; every diagram and vtree is serialised to JSON and read back by the harness's own node-table reader.",
-        "Trusted: harness writer/reader/evaluators; bounds as C05.",
+        "Trusted: harness writer/reader/evaluators; bounds as C05, plus clauses of up to 16 (24) literals, lists of up to 16 (24) clauses and variable numbers up to 65 536.",
         "DESIGN.md §3 C17",
     ),
     "C18": (
         "bounded exhaustive call-history exploration through the real exported C symbols in lock step with native calls and a truth-table oracle",
         "All functions of <= 3 variables are built through the C API, all pairs combined, every handle observed through every exported observer and compared with the native builder; all other exported constructors are exercised on every small CNF.",
-        "Trusted: extern declarations in the harness match the exported signatures (a mismatch shows up as a crash or a wrong value).",
+        "Trusted: extern declarations in the harness match the exported signatures (a mismatch shows up as a crash or a wrong value); model counts additionally in managers of 4..48 (56) variables against the closed form.",
         "DESIGN.md §3 C18",
     ),
     "C19": (
